@@ -15,8 +15,13 @@ use std::{collections::HashMap, sync::Arc};
 /// non-zero: every state read sleeps a few microseconds derived from this seed and the key (schedule jitter, C02)
 pub static JITTER: std::sync::atomic::AtomicU64 = std::sync::atomic::AtomicU64::new(0);
 
+/// per-key values (missing keys read as empty) plus *raw* answers: a read that starts at a raw key gets exactly the listed
+/// values back, however many were asked for (a state that answers with fewer / more values than requested)
 #[derive(Clone, Default)]
-pub struct MapState(pub Arc<HashMap<(ContentAddress, Key), Result<Vec<Word>, i64>>>);
+pub struct MapState(
+    pub Arc<HashMap<(ContentAddress, Key), Result<Vec<Word>, i64>>>,
+    pub Arc<HashMap<(ContentAddress, Key), Vec<Vec<Word>>>>,
+);
 
 pub fn next_key(mut key: Key) -> Option<Key> {
     for w in key.iter_mut().rev() {
@@ -37,6 +42,9 @@ impl StateRead for MapState {
         if j != 0 {
             let h = key.iter().fold(j, |a, w| a.wrapping_mul(6364136223846793005).wrapping_add(*w as u64 ^ 0x9e37));
             std::thread::sleep(std::time::Duration::from_micros((h >> 33) % 300));
+        }
+        if let Some(vs) = self.1.get(&(c.clone(), key.clone())) {
+            return Ok(vs.clone());
         }
         let mut out = vec![];
         for _ in 0..n {
@@ -89,17 +97,23 @@ pub fn p_check_case(t: &mut Toks) -> R<CheckCase> {
         })?
         .into_iter()
         .collect();
+    let mut raw = HashMap::new();
     let st = t.list(|t| {
         let c = addr32(t.bytes()?);
         let k = t.words()?;
         let r = match t.tok()? {
             "v" => Ok(t.words()?),
             "e" => Err(t.int()?),
+            "r" => {
+                let vs = t.list(|t| t.words())?;
+                raw.insert((c.clone(), k.clone()), vs);
+                return Ok(None);
+            }
             _ => return Err("state entry".into()),
         };
-        Ok(((c, k), r))
+        Ok(Some(((c, k), r)))
     })?;
-    Ok(CheckCase { collect_all, sols, preds, progs, state: MapState(Arc::new(st.into_iter().collect())) })
+    Ok(CheckCase { collect_all, sols, preds, progs, state: MapState(Arc::new(st.into_iter().flatten().collect()), Arc::new(raw)) })
 }
 
 pub fn show_program_error(e: &chks::ProgramError<StErr>) -> String {
